@@ -119,7 +119,7 @@ def strategy():
     return st.builds(
         lambda sink, p: {"program": p, "sink": sink},
         st.sampled_from(["file-b", "file-t"]),
-        P.programs(max_nodes=14),
+        P.programs(max_nodes=14, status_fields=True),
     )
 
 
